@@ -1,8 +1,4 @@
 (** ScopeSimStmtT: the parts of ScopeSimStmt.v the typed development needs (spec equations, same_globals, BM_stmts). *)
-(** ScopeSimStmt: agreement of the indexer model with the declarative resolver ScopeSpec for the block
-    statements of the fragment: assert, dump, defvar, foreach, if/else, let (any nesting), over values of the
-    fragment [frag_value].  (Statements that declare records - class, def, defm, defset, multiclass - are the
-    next stage; they need the arena invariants.) *)
 From Coq Require Import List NArith Bool Lia Arith.
 From TG.Model Require Import CoreAst Scope BangOps Indexer .
 From TG.Model Require Import ScopeSpecT.
@@ -54,7 +50,8 @@ Qed.
 Lemma spec_foreach : forall f e i init b,
     spec_stmt f e (SForeach i init b)
     = let ev0 := match init with FeRange => [] | FeValue v => spec_value f e v end in
-      let '(ev1, e1) := spec_stmts f (push_vars e [(i_name i, at_file f (i_rng i))]) b in
+      let vty := match init with FeRange => TUnk | FeValue v => elem_sty (sty_value e v) end in
+      let '(ev1, e1) := spec_stmts f (push_tvar e (i_name i) (at_file f (i_rng i)) vty) b in
       (ev0 ++ ev1, leave e e1).
 Proof. intros. simpl. rewrite spec_local. reflexivity. Qed.
 Lemma spec_if : forall f e c th el,
